@@ -31,13 +31,16 @@ def nat_expr(e: ast.expr) -> str:
         return str(e.value)
     if isinstance(e, ast.Name):
         return e.id
+    if isinstance(e, ast.Attribute) and isinstance(e.value, ast.Name) and e.value.id == "self":
+        return e.attr
     if isinstance(e, ast.BinOp):
         if isinstance(e.op, ast.BitAnd):
             if (isinstance(e.right, ast.Constant) and isinstance(e.right.value, int) and e.right.value > 0
                     and (e.right.value & (e.right.value + 1)) == 0):
                 return f"({nat_expr(e.left)} % {e.right.value + 1})"
-            raise P.Untranslatable("& with a non-mask")
-        sym = {ast.Add: "+", ast.Sub: "-", ast.Mult: "*", ast.FloorDiv: "/", ast.Mod: "%"}.get(type(e.op))
+            return f"({nat_expr(e.left)} &&& {nat_expr(e.right)})"
+        sym = {ast.Add: "+", ast.Sub: "-", ast.Mult: "*", ast.FloorDiv: "/", ast.Mod: "%",
+               ast.LShift: "<<<", ast.RShift: ">>>", ast.BitOr: "|||"}.get(type(e.op))
         if sym is None:
             raise P.Untranslatable("nat binop " + type(e.op).__name__)
         return f"({nat_expr(e.left)} {sym} {nat_expr(e.right)})"
@@ -65,13 +68,17 @@ def nat_cond(e: ast.expr) -> str:
 def free_names(e: ast.AST):
     out = []
     for n in ast.walk(e):
-        if isinstance(n, ast.Name) and n.id not in ("max", "min", "int") and n.id not in out:
+        if isinstance(n, ast.Name) and n.id not in ("max", "min", "int", "self") and n.id not in out:
             out.append(n.id)
+        if isinstance(n, ast.Attribute) and isinstance(n.value, ast.Name) and n.value.id == "self" and n.attr not in out:
+            out.append(n.attr)
     # ast.walk is breadth-first: order by source position instead
     pos = {}
     for n in ast.walk(e):
         if isinstance(n, ast.Name) and n.id in out:
             pos.setdefault(n.id, (n.lineno, n.col_offset))
+        if isinstance(n, ast.Attribute) and isinstance(n.value, ast.Name) and n.value.id == "self" and n.attr in out:
+            pos.setdefault(n.attr, (n.lineno, n.col_offset))
     return sorted(out, key=lambda k: pos[k])
 
 
@@ -112,6 +119,25 @@ def gen_lzw(out):
     out.append("\n-- lzw.py: LZWDecoder.__init__\n")
     for attr in ("buff", "bpos", "nbits"):
         out.append(f"def LZW_INIT_{attr.upper()} : Nat := {self_const(init.body, attr)}\n")
+    rb = P.find_function(mod, "LZWDecoder.readbits")
+    loops = [x for x in rb.body if isinstance(x, ast.While)]
+    if len(loops) != 1:
+        raise P.Untranslatable("readbits: one while loop expected")
+    body = [x for x in loops[0].body if not (isinstance(x, ast.Expr) and isinstance(x.value, ast.Constant))]
+    if not (len(body) == 2 and isinstance(body[0], ast.Assign) and isinstance(body[0].targets[0], ast.Name)
+            and body[0].targets[0].id == "r" and isinstance(body[1], ast.If)):
+        raise P.Untranslatable("readbits: `r = ...; if bits <= r: ... else: ...` expected")
+    out.append("-- lzw.py: LZWDecoder.readbits\n")
+    out.append(nat_def("lzwAvail", body[0].value, ["bpos"]))
+    out.append(nat_def("lzwFits", body[1].test, ["bits", "r"], cond=True))
+    def v_assign(stmts):
+        vs = [x.value for x in stmts if isinstance(x, ast.Assign) and isinstance(x.targets[0], ast.Name)
+              and x.targets[0].id == "v"]
+        if len(vs) != 1:
+            raise P.Untranslatable("readbits: one `v = ...` per branch expected")
+        return vs[0]
+    out.append(nat_def("lzwTakeAll", v_assign(body[1].body), ["v", "bits", "buff", "r"]))
+    out.append(nat_def("lzwTakePart", v_assign(body[1].orelse), ["v", "r", "buff"]))
     feed = P.find_function(mod, "LZWDecoder.feed")
     ifs = [s for s in feed.body if isinstance(s, ast.If)]
     if len(ifs) != 1:
